@@ -82,11 +82,22 @@ def by1(ctx):
                         e = agg_field_op(o[2], 'end')
                         if e is not None:
                             srcs |= set(fl.op_nodes(e))
+                            # the count is usually added from the same variable the range end was copied from
+                            el = op_local(e)
+                            hops = 0
+                            while el is not None and hops < 8:
+                                hops += 1
+                                srcs.add(('l', el))
+                                d = b.single_def(el)
+                                if d and d[1] == 'assign' and not d[2]['place']['p'] and d[2]['rv']['k'] == 'use' and op_local(d[2]['rv']['op']) is not None:
+                                    el = op_local(d[2]['rv']['op'])
+                                else:
+                                    break
             elif root is not None and root[0] in ('local', 'param'):
                 for c in b.calls:
                     if c.name.endswith('::len') and c.args and op_local(c.args[0]) is not None and ref_root(b, op_local(c.args[0])) == root:
                         srcs |= set(fl.call_result_nodes(c))
-            t = fl.forward({x for x in srcs})
+            t = fl.forward({x for x in srcs}, skip_mem=True)
             reach_exits = [e for e in exits if e['point'] in b.reach_after(w.point)]
             ok = bool(srcs) and bool(reach_exits) and all(e['ops'] and fl.op_tainted(e['ops'][0], t) for e in reach_exits)
             ctx.check(ok, '%s:write#%d' % (b.path, seen), where(b, w.point), 'the length of the slice written flows to the byte count returned',
@@ -100,7 +111,7 @@ def by2(ctx):
     """Entry writer: every frame's byte count flows to the entry's byte count."""
     n = 0
     for b in ctx.f.bodies.values():
-        if not b.path.startswith('recordlog::writer::RecordWriter') or b.generic_dup():
+        if not (b.path.startswith('recordlog::writer::RecordWriter') or b.path.startswith('frame::writer::FrameWriter')) or b.generic_dup():
             continue
         cws = counting_writer_calls(ctx, b)
         if not cws:
@@ -109,7 +120,7 @@ def by2(ctx):
         exits = [e for e in b.exits() if e['kind'] == 'ok']
         for c in cws:
             n += 1
-            t = fl.forward(set(fl.call_result_nodes(c)))
+            t = fl.forward(set(fl.call_result_nodes(c)), skip_mem=True)
             ok = bool(exits) and all(e['ops'] and fl.op_tainted(e['ops'][0], t) for e in exits if e['point'] in b.reach_after(c.point))
             ctx.check(ok, '%s:%s' % (b.path, c.path.split('::')[-1]), where(b, c.point), 'frame byte count flows to the entry byte count',
                       'the bytes reported by write_frame do not reach the value write_record returns')
@@ -137,7 +148,7 @@ def by3(ctx):
         for c in cws:
             n += 1
             key = '%s:%s' % (b.path, c.path.split('::')[-1])
-            t = fl.forward(set(fl.call_result_nodes(c)))
+            t = fl.forward(set(fl.call_result_nodes(c)), skip_mem=True)
             exits = [e for e in b.exits() if e['kind'] == 'ok' and e['point'] in b.reach_after(c.point)]
             if not exits:
                 ctx.bad(key, where(b, c.point), 'no successful exit after the counting writer call')
@@ -389,7 +400,23 @@ def qx3(ctx):
                     if g['kind'] not in alts:
                         continue
                     # reject edge: the edge from which a quiet exit is reachable without passing a log site
-                    for side in ('true', 'false'):
+                    # expected polarity of the reject edge per gate kind
+                    def reject_sides(g):
+                        if g['kind'] == 'retry':
+                            return ('true',) if g.get('op') == 'Eq' else ()
+                        if g['kind'] == 'empty':
+                            return ('true',)
+                        if g['kind'] == 'missing':
+                            return ('false',)          # Break edge of `?`
+                        if g['kind'] == 'past':
+                            lt_true = (g['op'] in ('Lt',) and g['pos_left']) or (g['op'] in ('Gt',) and not g['pos_left'])
+                            lt_false = (g['op'] in ('Ge',) and g['pos_left']) or (g['op'] in ('Le',) and not g['pos_left'])
+                            return ('true',) if lt_true else ('false',) if lt_false else ()
+                        if g['kind'] == 'exists':
+                            # AlreadyExists is rejected when the queue exists, MissingQueue when it does not
+                            return ('true',) if k == 'RecordPosition' else ('false',)
+                        return ('true', 'false')
+                    for side in reject_sides(g):
                         r = b.reach([g[side][1]], avoid=logs)
                         if any(e['point'] in r for (_w, e) in qs) and not any(lp in r for lp in logs):
                             # and the gate dominates the log site through its other edge
